@@ -61,6 +61,7 @@ func init() {
 		ns, per, rot := int(unnum(a[1])), int(unnum(a[2])), int(unnum(a[3]))
 		sep := string(unhex(a[4]))
 		rng := rand.New(rand.NewSource(int64(unnum(a[5]))))
+		os.MkdirAll("/root/scratch", 0o755)
 		dir, _ := os.MkdirTemp("/root/scratch", "filet")
 		defer os.RemoveAll(dir)
 		path := filepath.Join(dir, "out.log")
